@@ -5,6 +5,8 @@ def wide(w):
     return [f"-DVF_WIDE={w}"]
 
 
+# clang does not define __SANITIZE_ADDRESS__; vf::Buf keys its exact-size (no canary band) layout on it
+_CL = ["-D__SANITIZE_ADDRESS__=1"]
 _Q = ["asan-cc"]
 _T = ["asan-cc", "asan-nocc", "plain-cc"]
 
@@ -18,8 +20,8 @@ P = dict(
                 "ASan+UBSan. Compared: truth value / converted value, length, SIGN of comparisons, pointer results as offset-or-null, and the whole "
                 "destination image. Held means: no divergence and no sanitizer report on the executions listed in the evidence; it is not a proof "
                 "for longer strings or other alphabets."),
-    level_note=("trusts glibc 2.36 in the \"C\" locale as oracle and gcc 12 ASan/UBSan red zones; only the gcc (generic, non-builtin) code path of the "
-                "etl front ends is executed; constant evaluation of the same functions belongs to C13"),
+    level_note=("trusts glibc 2.36 in the \"C\" locale as oracle and gcc 12 ASan/UBSan red zones; the generic code path of the etl front ends is executed with gcc in both tiers, the compiler-builtin "
+                "dispatch path (clang 14) in the thorough tier only; constant evaluation of the same functions belongs to C13"),
     technique="runtime differential monitoring vs glibc under ASan+UBSan (exhaustive small scope + seeded random)",
     design_ref="DESIGN.md section 4 C18",
     rule=("cctype: 14 functions x every argument in [-1,255]. cwctype: 14 functions x WEOF and every code in [0,0x10FFFF] (exhaustive) plus 4097 "
@@ -40,6 +42,11 @@ P = dict(
         Unit("C18_str_wchar_t", "harness/C18_str.cpp", defs=wide(1), flavours={"quick": _Q, "thorough": _T}, shards={"quick": 8, "thorough": 16}),
         Unit("C18_mem_char", "harness/C18_mem.cpp", defs=wide(0), flavours={"quick": _Q, "thorough": _T}, shards={"quick": 4, "thorough": 16}),
         Unit("C18_mem_wchar_t", "harness/C18_mem.cpp", defs=wide(1), flavours={"quick": _Q, "thorough": _T}, shards={"quick": 4, "thorough": 16}),
+        # clang: the etl front ends forward strlen/strcmp/strncmp/strchr/memchr/memcmp/memcpy/memmove/wmemcpy/wmemmove to compiler builtins
+        Unit("C18_str_char_clang", "harness/C18_str.cpp", defs=wide(0) + _CL, flavours={"quick": [], "thorough": ["clang14-cc"]}, shards={"quick": 8, "thorough": 16}),
+        Unit("C18_str_wchar_t_clang", "harness/C18_str.cpp", defs=wide(1) + _CL, flavours={"quick": [], "thorough": ["clang14-cc"]}, shards={"quick": 8, "thorough": 16}),
+        Unit("C18_mem_char_clang", "harness/C18_mem.cpp", defs=wide(0) + _CL, flavours={"quick": [], "thorough": ["clang14-cc"]}, shards={"quick": 4, "thorough": 16}),
+        Unit("C18_mem_wchar_t_clang", "harness/C18_mem.cpp", defs=wide(1) + _CL, flavours={"quick": [], "thorough": ["clang14-cc"]}, shards={"quick": 4, "thorough": 16}),
     ],
     floor={"quick": 15000000, "thorough": 60000000},
     assumptions=["glibc 2.36 in the \"C\" locale is a correct reference for the C library functions compared",
